@@ -153,6 +153,12 @@ static void c3_case(uint64_t idx, void *vctx)
         clip_apply(dst, &dclip);
         if (ao->kind) {
             amap = pixman_image_create_bits(PIXMAN_a8, AW, AH, (uint32_t *)ga.pix, ga.stride);
+            /* the map is first attached at another origin and then moved: the region must follow the CURRENT origin */
+            pixman_image_set_alpha_map(dst, amap, (int16_t)(ao->ox + 3), (int16_t)(ao->oy - 2));
+            if (idx & 1) { uint32_t t4[4] = { 0, 0, 0, 0 }; pixman_image_t *tsrc = pixman_image_create_bits(PIXMAN_a8r8g8b8, 1, 1, t4, 4);
+                           gbuf_t gt = gb_make(bpp, W, H, fill), gat = gb_make(8, AW, AH, fill); (void)gt; (void)gat;
+                           pixman_image_composite32(PIXMAN_OP_DST, tsrc, NULL, dst, 0, 0, 0, 0, 0, 0, 1, 1);    /* a use in between (validates the image) */
+                           pixman_image_unref(tsrc); free(gt.base); free(gat.base); }
             pixman_image_set_alpha_map(dst, amap, (int16_t)ao->ox, (int16_t)ao->oy);
         }
         for (int xi = 0; xi < 7 && !vf_failed(); xi++) for (int yi = 0; yi < 4; yi++) for (int wi = 0; wi < 6; wi++) for (int hi = 0; hi < 5; hi++) {
